@@ -131,3 +131,122 @@ configure_file(output: 'have.h', configuration: cd)
     'subprojects/zz-3/meson.build': "project('zz', version: '3')\nzz_dep = declare_dependency()\n",
     'subprojects/aa-0/meson.build': "project('aa', version: '0')\naa_dep = declare_dependency()\n",
 }
+
+
+# ---------------------------------------------------------------------------------------------------------------------
+# Earlier-revision family ("the build directory's history" = it was configured from an earlier revision of the project).
+#
+# A project is two ordered lists of declarations: the option declarations of meson.options and the statements of
+# meson.build that register something with the configuration (dependency lookups, build targets).  The PRESENT revision
+# is fixed; an EARLIER revision differs from it by one elementary edit of one of the lists:
+#     insert@i   declaration i of the present list did not exist yet            (i in 0..n-1)
+#     delete@i   a further declaration stood in front of position i              (i in 0..n)
+#     swap@i     declarations i and i+1 stood in the other order                 (i in 0..n-2)
+#     retype@i   option i was declared with another type that holds the same value (options that have such a form)
+# No edit changes the value any option has (defaults are equal across a retype and a declared default is never edited,
+# because a changed default is documented not to reach an existing build directory).  meson.build reads every option
+# the revision declares and writes the values into a configure_file output, so that revision and output stay in step.
+# Names are chosen so that declaration order is neither alphabetical nor reverse alphabetical.
+REV_OPTIONS = [     # (name, declaration, same-valued declaration of another type | None)
+    ('mid', "option('mid', type: 'boolean', value: true, description: 'm')", None),
+    ('zeta', "option('zeta', type: 'string', value: 'b', description: 'z')",
+     "option('zeta', type: 'combo', choices: ['b', 'c'], value: 'b', description: 'z')"),
+    ('alpha', "option('alpha', type: 'integer', value: 3, description: 'a')", None),
+]
+REV_EXTRA_OPTION = ('kappa', "option('kappa', type: 'array', value: ['k'], description: 'k')", None)
+REV_SUB_OPTIONS = [
+    ('sp_b', "option('sp_b', type: 'string', value: 's', description: 'sb')",
+     "option('sp_b', type: 'combo', choices: ['s', 't'], value: 's', description: 'sb')"),
+    ('sp_a', "option('sp_a', type: 'boolean', value: false, description: 'sa')", None),
+]
+REV_EXTRA_SUB_OPTION = ('sp_k', "option('sp_k', type: 'integer', value: 1, description: 'sk')", None)
+# statements: (kind, name, text); pkg-config packages come with the project (PKG_CONFIG_PATH names <src>/pc)
+REV_STATEMENTS = [
+    ('dependency', 'revm', "d_revm = dependency('revm')"),
+    ('dependency', 'revz', "d_revz = dependency('revz')"),
+    ('dependency', 'reva', "d_reva = dependency('reva')"),
+]
+REV_EXTRA_STATEMENT = ('dependency', 'revk', "d_revk = dependency('revk')")
+REV_C_STATEMENTS = [
+    ('target', 'em', "executable('em', 'e.c', dependencies: d_revm)"),
+    ('target', 'ez', "executable('ez', 'e.c')"),
+]
+REV_EXTRA_C_STATEMENT = ('target', 'ek', "executable('ek', 'e.c')")
+REV_LISTS = ['options', 'suboptions', 'statements']
+
+
+def rev_present(lang: T.Optional[str]) -> T.Dict[str, list]:
+    return {'options': list(REV_OPTIONS), 'suboptions': list(REV_SUB_OPTIONS),
+            'statements': list(REV_STATEMENTS) + (list(REV_C_STATEMENTS) if lang else [])}
+
+
+def rev_extra(lang: T.Optional[str], which: str):
+    return {'options': REV_EXTRA_OPTION, 'suboptions': REV_EXTRA_SUB_OPTION,
+            'statements': REV_EXTRA_C_STATEMENT if lang else REV_EXTRA_STATEMENT}[which]
+
+
+def rev_edits(lang: T.Optional[str], which: str) -> T.List[T.Tuple[str, int]]:
+    """all elementary edits of list `which`, simplest first"""
+    decls = rev_present(lang)[which]
+    n = len(decls)
+    out = [('insert', i) for i in range(n)] + [('swap', i) for i in range(n - 1)]
+    if which != 'statements':
+        out += [('retype', i) for i in range(n) if decls[i][2] is not None]
+    out += [('delete', i) for i in range(n + 1)]
+    if which == 'statements' and lang:
+        # a target that uses a dependency cannot stand in front of its lookup, nor exist without it
+        def ok(e):
+            names = [d[1] for d in rev_apply(decls, e, rev_extra(lang, which))]
+            return 'em' not in names or ('revm' in names and names.index('revm') < names.index('em'))
+        out = [e for e in out if ok(e)]
+    return out
+
+
+def rev_apply(decls: list, edit: T.Tuple[str, int], extra) -> list:
+    """the earlier form of the list `decls`"""
+    k, i = edit
+    if k == 'insert':
+        return decls[:i] + decls[i + 1:]
+    if k == 'delete':
+        return decls[:i] + [extra] + decls[i:]
+    if k == 'swap':
+        return decls[:i] + [decls[i + 1], decls[i]] + decls[i + 2:]
+    if k == 'retype':
+        return decls[:i] + [(decls[i][0], decls[i][2], decls[i][1])] + decls[i + 1:]
+    raise AssertionError(edit)
+
+
+def rev_edited_kind(decls: list, edit: T.Tuple[str, int], extra, which: str) -> str:
+    """kind of the declaration the edit is about: option / dependency / target"""
+    if which != 'statements':
+        return 'option' if which == 'options' else 'subproject-option'
+    k, i = edit
+    return extra[0] if k == 'delete' else decls[i][0]
+
+
+def rev_project(lang: T.Optional[str], lists: T.Dict[str, list]) -> T.Dict[str, str]:
+    opts, sub, stmts = lists['options'], lists['suboptions'], lists['statements']
+    files = {'meson.options': ''.join(d[1] + '\n' for d in opts),
+             'subprojects/sp/meson.options': ''.join(d[1] + '\n' for d in sub)}
+    for n in ('revm', 'revz', 'reva', 'revk'):
+        files['pc/%s.pc' % n] = 'Name: %s\nDescription: %s\nVersion: 1.0\nCflags: -DHAVE_%s\nLibs:\n' % (n, n, n.upper())
+    mb = ["project('rev'%s, version: '1.0', meson_version: '>=1.1')" % (", '%s'" % lang if lang else ''), 'cd = configuration_data()']
+    for name, decl, _ in opts:
+        if "'array'" in decl:
+            mb.append("cd.set_quoted('O_%s', ' '.join(get_option('%s')))" % (name.upper(), name))
+        elif "'string'" in decl or "'combo'" in decl:
+            mb.append("cd.set_quoted('O_%s', get_option('%s'))" % (name.upper(), name))
+        else:
+            mb.append("cd.set('O_%s', get_option('%s'))" % (name.upper(), name))
+    mb.append("configure_file(output: 'revconf.h', configuration: cd)")
+    mb += [s[2] for s in stmts]
+    mb.append("subproject('sp')")
+    files['meson.build'] = '\n'.join(mb) + '\n'
+    sb = ["project('sp', version: '0.1')", 'scd = configuration_data()']
+    for name, decl, _ in sub:
+        sb.append(("scd.set_quoted('S_%s', get_option('%s'))" if ("'string'" in decl or "'combo'" in decl) else "scd.set('S_%s', get_option('%s'))") % (name.upper(), name))
+    sb.append("configure_file(output: 'spconf.h', configuration: scd)")
+    files['subprojects/sp/meson.build'] = '\n'.join(sb) + '\n'
+    if lang:
+        files['e.c'] = 'int main(void) { return 0; }\n'
+    return files
